@@ -87,8 +87,17 @@ func (d *Describer) Lin(v ssa.Value, reach *Reach) LinForm {
 
 func (d *Describer) lin(v ssa.Value, reach *Reach, depth int) LinForm {
 	leaf := func() LinForm {
+		if ph, ok := v.(*ssa.Phi); ok && isRangePre(ph) && !d.PhiByName {
+			f := linLeaf(fmt.Sprintf("it@%d", ph.Block().Index))
+			f.Const = -1
+			return f
+		}
 		if ph, ok := v.(*ssa.Phi); ok && d.PhiByName {
-			return linLeaf(fmt.Sprintf("φ%s", ph.Name()))
+			f := linLeaf(fmt.Sprintf("φ%s", ph.Name()))
+			if isRangePre(ph) {
+				f.Const = -1 // the element index is pre-index + 1
+			}
+			return f
 		}
 		if reach != nil {
 			return linLeaf(d.DUnder(v, reach))
@@ -256,4 +265,19 @@ func splitTerms(s string) []string {
 		}
 	}
 	return append(out, s[start:])
+}
+
+// linNoConst: the printed linear form ends without a constant term.
+func linNoConst(s string) bool {
+	i := strings.LastIndex(s, " ")
+	t := s[i+1:]
+	if len(t) < 2 || (t[0] != '+' && t[0] != '-') {
+		return true
+	}
+	for _, c := range t[1:] {
+		if c < '0' || c > '9' {
+			return true
+		}
+	}
+	return false
 }
